@@ -7,7 +7,10 @@ var verifHarnesses = map[string]func(){
 	"VerifC18FrameRoundTrip": VerifC18FrameRoundTrip,
 	"VerifC18FrameArbitrary": VerifC18FrameArbitrary,
 	"VerifC18FrameAlloc":     VerifC18FrameAlloc,
+	"VerifC01Apply":          VerifC01Apply,
+	"VerifC01OwnFrame":       VerifC01OwnFrame,
 	"VerifC02Journal":        VerifC02Journal,
+	"VerifC02AfterModeChange": VerifC02AfterModeChange,
 	"VerifC03Tx1":            VerifC03Tx1,
 	"VerifC03Two":            VerifC03Two,
 	"VerifC03Overwrite":      VerifC03Overwrite,
